@@ -575,6 +575,33 @@ impl VisitMut for Norm {
             }
         }
         b.stmts = new_stmts;
+        // N1b: statements under `#[cfg(debug_assertions)]` do not exist in release builds (the configuration that is verified)
+        {
+            let has_dbg = |attrs: &Vec<Attribute>| attrs.iter().any(|a| a.path().is_ident("cfg") && a.to_token_stream().to_string().replace(' ', "").contains("cfg(debug_assertions)"));
+            let before = b.stmts.len();
+            let mut spans = vec![];
+            b.stmts.retain(|s| {
+                let drop = match s {
+                    Stmt::Expr(Expr::MethodCall(mc), _) => has_dbg(&mc.attrs),
+                    Stmt::Expr(Expr::Call(c), _) => has_dbg(&c.attrs),
+                    Stmt::Expr(Expr::Macro(m), _) => has_dbg(&m.attrs),
+                    Stmt::Expr(Expr::Block(bl), _) => has_dbg(&bl.attrs),
+                    Stmt::Expr(Expr::ForLoop(f), _) => has_dbg(&f.attrs),
+                    Stmt::Expr(Expr::If(i), _) => has_dbg(&i.attrs),
+                    Stmt::Local(l) => has_dbg(&l.attrs),
+                    _ => false,
+                };
+                if drop {
+                    spans.push(s.span());
+                }
+                !drop
+            });
+            if b.stmts.len() != before {
+                for sp in spans {
+                    self.log("N1b-drop-cfg-debug_assertions", sp);
+                }
+            }
+        }
         // drop configured no-effect calls, e.g. `drop(state);`
         let drops = self.drop_calls.clone();
         if !drops.is_empty() {
@@ -662,10 +689,14 @@ impl VisitMut for Norm {
         if let Expr::MethodCall(mc) = e {
             if mc.method == "for_each" && mc.args.len() == 1 {
                 if let Expr::Closure(c) = &mc.args[0] {
-                    if c.inputs.len() == 1 && !body_has_return(&c.body) && matches!(&c.inputs[0], Pat::Ident(_) | Pat::Type(_)) {
+                    if c.inputs.len() == 1 && !body_has_return(&c.body) && matches!(&c.inputs[0], Pat::Ident(_) | Pat::Type(_) | Pat::Wild(_)) {
                         let sp = mc.method.span();
                         let pat = match c.inputs[0].clone() {
                             Pat::Type(pt) => *pt.pat,
+                            Pat::Wild(_) => {
+                                let id = self.fresh("u");
+                                parse_quote!(#id)
+                            }
                             p => p,
                         };
                         if matches!(pat, Pat::Ident(_)) {
